@@ -3244,3 +3244,110 @@ func ruleOptSticky(prog *Program, rep *Report, floor int, rels ...string) {
 	rep.Rules = append(rep.Rules, "C-optsticky: a pointer-receiver method assigns an exported field of its receiver at the top level of an if statement only when the condition mentions that field (default, clamp) or the method has assigned the field unconditionally before ("+strings.Join(rels, ", ")+")")
 	runSynRule(prog, rep, "C-optsticky", rels, matchOptSticky, fixtureOptSticky, 1, floor)
 }
+
+// ---------------------------------------------------------------- F-childpaths
+
+// matchChildVariadic: a recursive function whose variadic parameter holds paths relative to the value it is
+// given (alt.diff's ignore paths) has to shorten them before it descends: a self-call on an element - its first
+// argument is a range variable or an index expression - that passes the variadic parameter through unchanged
+// applies the parent's paths one level too deep.
+func matchChildVariadic(files []*ast.File, info *types.Info) (sites []synSite, examined int) {
+	for _, f := range files {
+		for _, d := range f.Decls {
+			fd, ok := d.(*ast.FuncDecl)
+			if !ok || fd.Body == nil || fd.Type.Params == nil || len(fd.Type.Params.List) == 0 {
+				continue
+			}
+			last := fd.Type.Params.List[len(fd.Type.Params.List)-1]
+			if _, isVar := last.Type.(*ast.Ellipsis); !isVar || len(last.Names) != 1 {
+				continue
+			}
+			vparam := info.Defs[last.Names[0]]
+			self := info.Defs[fd.Name]
+			rangeVars := map[types.Object]bool{}
+			ast.Inspect(fd.Body, func(n ast.Node) bool {
+				if rs, ok := n.(*ast.RangeStmt); ok {
+					for _, e := range []ast.Expr{rs.Key, rs.Value} {
+						if id, ok := e.(*ast.Ident); ok {
+							if o := info.Defs[id]; o != nil {
+								rangeVars[o] = true
+							} else if o := info.Uses[id]; o != nil {
+								rangeVars[o] = true
+							}
+						}
+					}
+				}
+				return true
+			})
+			ast.Inspect(fd.Body, func(n ast.Node) bool {
+				call, ok := n.(*ast.CallExpr)
+				if !ok || !call.Ellipsis.IsValid() || len(call.Args) < 2 {
+					return true
+				}
+				var callee types.Object
+				switch fn := ast.Unparen(call.Fun).(type) {
+				case *ast.Ident:
+					callee = info.Uses[fn]
+				case *ast.SelectorExpr:
+					callee = info.Uses[fn.Sel]
+				}
+				if callee != self {
+					return true
+				}
+				examined++
+				va, ok := ast.Unparen(call.Args[len(call.Args)-1]).(*ast.Ident)
+				if !ok || info.Uses[va] != vparam {
+					return true
+				}
+				child := false
+				switch a0 := ast.Unparen(call.Args[0]).(type) {
+				case *ast.IndexExpr:
+					child = true
+				case *ast.Ident:
+					child = rangeVars[info.Uses[a0]]
+				}
+				if child {
+					name := enclosingFuncName(f, fd.Pos())
+					sites = append(sites, synSite{pos: call.Pos(), file: f, key: fmt.Sprintf("%s:child-call-passes:%s", name, vparam.Name()),
+						msg: fmt.Sprintf("%s calls itself on an element (%s) and passes its own %s... through unchanged: paths meant for this level are applied one level down", name, types.ExprString(call.Args[0]), vparam.Name())})
+				}
+				return true
+			})
+		}
+	}
+	return
+}
+
+const fixtureChildVariadic = `package fixture
+
+type path []any
+
+func diff(v0, v1 any, ignores ...path) (n int) {
+	if a0, ok := v0.([]any); ok {
+		a1, _ := v1.([]any)
+		var child []path
+		for _, ig := range ignores {
+			if 1 < len(ig) {
+				child = append(child, ig[1:])
+			}
+		}
+		for i, m := range a0 {
+			if i == 0 {
+				n += diff(m, a1[i], child...)
+			} else {
+				n += diff(m, a1[i], ignores...)
+			}
+		}
+		return
+	}
+	if s, ok := v0.(interface{ Simplify() any }); ok {
+		return diff(s.Simplify(), v1, ignores...)
+	}
+	return 0
+}
+`
+
+func ruleChildVariadic(prog *Program, rep *Report, floor int, rels ...string) {
+	rep.Rules = append(rep.Rules, "F-childpaths: a recursive function does not pass its own variadic parameter through unchanged in a self-call whose first argument is an element of the value (a range variable or an index expression) ("+strings.Join(rels, ", ")+")")
+	runSynRule(prog, rep, "F-childpaths", rels, matchChildVariadic, fixtureChildVariadic, 1, floor)
+}
